@@ -6,7 +6,7 @@
                  zero trimming), read_back_value : value_t::print (bare 0 for a display-zero amount),
      print_reread = decide ; reread ; finalize,   equity_account : posts_as_equity per account.
    Statements that are FALSE of the faithful model are kept as `..._refuted` with their witness
-   (findings F7, F8, F22, F23). *)
+   (findings F7, F8, F27, F28). *)
 From LedgerV Require Import Base.Prelude Base.Round Model.Amount Model.AmountText Model.Xact Model.Print
   Proofs.AmountProofs Proofs.XactProofs Proofs.PrintProofs.
 Local Open Scope Q_scope.
@@ -109,7 +109,7 @@ Proof.
 Qed.
 Print Assumptions zero_amount_commodity_lost_refuted.
 
-(* finding F23: `A 0 AAA @ $2.00 / B $5.00 / C` is accepted and print fails on it *)
+(* finding F28: `A 0 AAA @ $2.00 / B $5.00 / C` is accepted and print fails on it *)
 Definition f23_zero : amount := mkAmt 0 0 false (Some [65; 65; 65]%Z).
 Definition f23_cost : amount := cost_per_unit cp2 (mkAmt 2 2 true usd) f23_zero.
 Definition f23_witness : list xpost :=
@@ -135,7 +135,7 @@ Proof.
 Qed.
 Print Assumptions posting_state_roundtrip.
 
-(* finding F22: otherwise it is lost (`* x / ! B`: B comes back cleared) *)
+(* finding F27: otherwise it is lost (`* x / ! B`: B comes back cleared) *)
 Theorem posting_state_lost_refuted : exists xs e, read_state xs (mark_of xs e) <> e_state e.
 Proof. exact mark_lost_refuted. Qed.
 Print Assumptions posting_state_lost_refuted.
